@@ -53,8 +53,8 @@ func Explore(o Options, mk func() (main func(), done func(x *Exec))) Stats {
 	top := 0
 	var rec func(prefix []int)
 	rec = func(prefix []int) {
-		if o.Stop != nil && o.Stop() {
-			st.Stopped = true
+		if st.Stopped || (o.Stop != nil && o.Stop()) {
+			st.Stopped = true // sticky: once the budget is used up nothing more is explored
 			return
 		}
 		main, done := mk()
